@@ -286,7 +286,7 @@ fn state_space(ctx: &Ctx) -> Outcome {
     let nbits = if ctx.thorough { 640 } else { 256 };
     for e in End::BOTH {
         for kind in KINDS {
-            for backend in ["memzx", "memstrict"] {
+            for backend in ["memzx", "memstrict", "vec"] {
                 let diag = ctx.diag[kind];
                 let seed = ctx.seed;
                 let thorough = ctx.thorough;
